@@ -705,6 +705,36 @@ def main(inp, emit):
     return r
 '''
 
+# a host that sets PROCESS-WIDE interpreter state of its own after start-up (int/str digit limit, recursion limit, switch
+# interval, its decimal context) and holds an int just past ITS digit limit: the agent must leave all of it as the host set
+# it (run_host of props/c01.py records `interp_state` after main() for every program and restores it afterwards).
+PROGRAMS['interp_state'] = '''
+import decimal
+import sys
+
+
+def report(n, big):
+    digits = len(str(n))        #@A
+    try:
+        shown = len(str(big))
+    except ValueError:
+        shown = -1              #@B
+    return digits, shown
+
+
+def main(inp, emit):
+    sys.set_int_max_str_digits(5000 + inp)
+    sys.setrecursionlimit(1200 + inp)
+    sys.setswitchinterval(0.004)
+    decimal.getcontext().prec = 31
+    big = 10 ** (5100 + inp)            # one past the limit this program chose
+    mid = 10 ** 4600                    # fine under ITS limit, too long for the interpreter's default
+    digits, shown = report(mid, big)
+    emit('digits %d shown %d' % (digits, shown))
+    later = len(str(mid * 3))           # still fine afterwards
+    return {'digits': digits, 'shown': shown, 'later': later, 'limit': sys.get_int_max_str_digits()}
+'''
+
 # known finding C01/finalisation-delayed-until-gc: the same program WITHOUT gc.collect() — its result depends on
 # objects being finalised by reference counting as soon as the function that held them returns
 PROGRAMS['finalizers_nogc'] = PROGRAMS['finalizers'].replace('        gc.collect()\n', '')
